@@ -1,6 +1,168 @@
-(* C24 — theorems being added *)
+(* C24 — block execution reads exactly the declared keys from parent state.
+
+   Objects (Model/Chain.v, the definitions Check/C24_check.v evaluates against the real Processor run
+   over a recording / failing parent view): [block_reads] = the keys requested from the parent view
+   (with the flag "this list is exact / schedule-independent"), [fetch] = the storage handed to a
+   task's view, [run_txs] / [execute_block] = the execution, [is_fail] / [fail_hits] = the injected
+   read fault.  In the model the three metadata keys are the separate fields p_height / p_ts / p_fee
+   of the parent; [p_data] is every other key. *)
 From stdpp Require Import gmap.
-From HV Require Import Model.Keys Model.Tstate Model.Fees Model.Chain.
-Theorem C24_too_late_reads_nothing : forall r mk p b, b_too_late b = true -> block_reads r mk p b = ([], true).
-Proof. intros r mk p b H. unfold block_reads. rewrite H. reflexivity. Qed.
-Print Assumptions C24_too_late_reads_nothing.
+From Coq Require Import NArith ZArith.
+From HV Require Import Lib.Bytes Lib.U64 Model.Keys Model.Tstate Model.Fees Model.Chain Model.ParExec
+                       Proofs.Reads_proofs.
+Local Open Scope N_scope.
+
+(* ---- which keys are requested ---------------------------------------------------------------- *)
+
+(* For EVERY block (accepted or rejected at any stage, with or without a read fault): the requested
+   keys are a prefix of [height; timestamp; fee] followed by a duplicate-free list of keys each of
+   which is declared (StateKeys: action declarations or the sponsor's balance key) by a transaction
+   of the block.  Nothing else is ever read from the parent. *)
+Theorem C24_reads_only_declared : forall r mk p b,
+  exists ms dk, fst (block_reads r mk p b) = ms ++ dk /\ ms `prefix_of` metas mk /\ NoDup dk /\
+                forall k, k ∈ dk -> declared_by_block b k.
+Proof. exact block_reads_only_declared. Qed.
+Print Assumptions C24_reads_only_declared.
+
+(* For every block that executes successfully: the requested keys are EXACTLY the three metadata
+   keys plus the union of the declared keys of all the block's transactions, every declared key
+   requested once however many transactions declare it, and the list is marked exact. *)
+Theorem C24_reads_exactly_declared : forall r mk p b o, execute_block r mk p b = inl o ->
+  exists dk, block_reads r mk p b = (metas mk ++ dk, true) /\ NoDup dk /\
+             forall k, k ∈ dk <-> declared_by_block b k.
+Proof. exact block_reads_exact. Qed.
+Print Assumptions C24_reads_exactly_declared.
+
+(* The storage a task's view reads through to holds exactly the parent's entries of the task's
+   declared keys (value, or absence), and nothing for any other key. *)
+Theorem C24_fetch_exactly_declared : forall (parent : gmap key val) (sk : gmap key perm) (k : key),
+  fetch parent sk !! k = if decide (is_Some (sk !! k)) then parent !! k else None.
+Proof. exact fetch_lookup. Qed.
+Print Assumptions C24_fetch_exactly_declared.
+
+(* ---- what each transaction observes ---------------------------------------------------------- *)
+
+(* In run_txs the i-th task runs (run_tx) on the block diff st_i left by the tasks before it.  For
+   every key k it declares: its view shows the last change made earlier in the block if there is
+   one, else exactly the parent's value or absence (and GetValue returns that value / ErrNotFound
+   when k is read-declared); and if no earlier task has Write permission on k then k was not changed
+   earlier (so, starting from the empty diff, the task observes the parent's value). *)
+Theorem C24_tx_sees_parent_value : forall r fm parent ts st0 (ptxs : list ptx) i t sk u,
+  ptxs !! i = Some (t, sk, u) ->
+  let st_i := fst (fst (run_txs r fm parent ts st0 (take i ptxs))) in
+  run_txs r fm parent ts st0 ptxs =
+    (let '(st1, rs1, f1) := run_txs r fm parent ts st0 (take i ptxs) in
+     let '(st2, rs2, f2) := run_txs r fm parent ts st1 ((t, sk, u) :: drop (S i) ptxs) in
+     (st2, rs1 ++ rs2, f1 ++ f2))
+  /\ forall k, is_Some (sk !! k) ->
+     let s := new_view st_i (ScopeKeys sk) (fetch parent sk) in
+     vis s k = match ts_changed st_i !! k with Some ov => ov | None => parent !! k end
+     /\ (ts_changed st_i !! k = None -> keys_has sk k pRead = true ->
+         get s k = match parent !! k with Some v => inl v | None => inr ENotFound end)
+     /\ ((forall j tj skj uj, (j < i)%nat -> ptxs !! j = Some (tj, skj, uj) -> keys_has skj k pWrite = false) ->
+         ts_changed st_i !! k = ts_changed st0 !! k).
+Proof. exact task_sees_parent_value. Qed.
+Print Assumptions C24_tx_sees_parent_value.
+
+(* ---- nothing else in the parent matters ------------------------------------------------------ *)
+
+(* Two parents with the same metadata that agree on every key declared by a transaction of the block
+   (and differ arbitrarily elsewhere) give the same verdict, results, diff, prices, units — and the
+   same requested keys. *)
+Theorem C24_undeclared_parent_irrelevant : forall r mk p1 p2 b, parents_agree b p1 p2 ->
+  execute_block r mk p1 b = execute_block r mk p2 b /\ block_reads r mk p1 b = block_reads r mk p2 b.
+Proof. exact undeclared_parent_irrelevant. Qed.
+Print Assumptions C24_undeclared_parent_irrelevant.
+
+(* ---- read errors ------------------------------------------------------------------------------ *)
+
+(* A failing read of a key the block requests makes the block fail (with a fetch / execute-txs
+   class, unless a check that precedes the read had already rejected it): it is never an accepted
+   block, in particular the key is never treated as absent. *)
+Theorem C24_error_not_absence : forall r mk p b f,
+  b_fail_key b = Some f -> f ∈ fst (block_reads r mk p b) ->
+  exists cls sub, execute_block r mk p b = inr (cls, sub) /\
+    (cls = clsFetchHeight \/ cls = clsFetchTs \/ cls = clsFetchFee \/ cls = clsExecuteTxs \/
+     cls = clsTooLate \/ cls = clsBadHeight \/ cls = clsTooEarly \/ cls = clsTooEarlyEmpty \/ cls = clsDuplicate).
+Proof. exact error_not_absence. Qed.
+Print Assumptions C24_error_not_absence.
+
+(* Conversely a fault on a key the block does not request is unobservable. *)
+Theorem C24_fault_elsewhere_harmless : forall r mk p b f,
+  b_fail_key b = Some f -> f ∉ fst (block_reads r mk p b) ->
+  execute_block r mk p b = execute_block r mk p (without_fault b).
+Proof. exact fault_elsewhere_harmless. Qed.
+Print Assumptions C24_fault_elsewhere_harmless.
+
+(* ---- non-vacuity ----------------------------------------------------------------------------- *)
+Definition ex_rules : rules :=
+  mkRules 100%Z 750%Z [1;1;1;1;1] [48;48;48;48;48] [20000000;1000;1000;1000;1000] [1800000;2000;2000;2000;2000]
+          60000%Z 4 1 5 2 20 5 10 3.
+Definition ex_fee : manager := mkFee 1058 [1;100;1;1;1] [] [1500;500;1500;0;0].
+Definition kA : key := [209;0;1].
+Definition kB : key := [210;0;1].
+Definition kC : key := [211;0;1].     (* declared by nobody *)
+Definition sp0 : key := [1;0;1].  Definition sp1 : key := [2;0;1].
+Definition ex_tx (sp : key) (decl : list (key * perm)) (ops : list sop) : tx :=
+  mkTx 1067000%Z true 1000000 sp true 3 (-1)%Z (-1)%Z 100 false [mkAction 1 decl ops (-1)%Z (-1)%Z].
+(* tx0 reads kA and kB (absent in the parent) and writes kA; tx1 reads kA (changed by tx0) and kB *)
+Definition ex_txs : list tx :=
+  [ ex_tx sp0 [(kA, pAll); (kB, pRead)] [OGet kA; OGet kB; OPut kA [3]];
+    ex_tx sp1 [(kA, pRead); (kB, pRead)] [OGet kA; OGet kB] ].
+Definition ex_data : gmap key val := list_to_map [(sp0, be64 500000); (sp1, be64 500000); (kA, [9])].
+Definition ex_parent (data : gmap key val) : parent_state := mkParent data (Some 47) 1059318 ex_fee.
+Definition ex_block (fault : option key) : block := mkBlock 1059418%Z 48 true false false fault ex_txs.
+Definition ex_meta : meta_keys := mkMeta [0;0;1] [0;1;1] [0;2;1].
+
+(* the block succeeds; kA and kB are declared by both transactions and requested once each;
+   tx0 sees the parent's kA = [9] and kB absent, tx1 sees tx0's kA = [3] and kB absent *)
+Example C24_ex_success :
+  match execute_block ex_rules ex_meta (ex_parent ex_data) (ex_block None) with
+  | inl o => map res_outputs (o_results o) = [[[1; 1; 9; 0]]; [[1; 1; 3; 0]]]
+  | inr _ => False
+  end /\
+  block_reads ex_rules ex_meta (ex_parent ex_data) (ex_block None)
+  = ([[0;0;1]; [0;1;1]; [0;2;1]; sp0; kA; kB; sp1], true).
+Proof. vm_compute. auto. Qed.
+
+(* C24_tx_sees_parent_value: hypothesis satisfiable *)
+Example C24_ex_lookup : exists ptxs fm' t sk u,
+  prepare ex_rules (compute_next ex_fee 1059418%Z (r_target ex_rules) (r_denom ex_rules) (r_min_price ex_rules)) ex_txs
+    = inl (ptxs, fm') /\ ptxs !! 1%nat = Some (t, sk, u) /\ is_Some (sk !! kB).
+Proof. eexists _, _, _, _, _. split; [vm_compute; reflexivity|]. split; [reflexivity|]. vm_compute. eauto. Qed.
+
+(* C24_undeclared_parent_irrelevant: a parent that differs on the undeclared key kC *)
+Example C24_ex_parents_agree :
+  parents_agree (ex_block None) (ex_parent ex_data) (ex_parent (<[kC := [7; 7]]> ex_data)).
+Proof.
+  split; [reflexivity|]. split; [reflexivity|]. split; [reflexivity|].
+  intros k (t & Ht & Hk). cbn [p_data ex_parent]. symmetry. apply lookup_insert_ne.
+  cbn [ex_block b_txs ex_txs] in Ht.
+  repeat (apply elem_of_cons in Ht; destruct Ht as [->|Ht]); [| |inversion Ht];
+    vm_compute in Hk; repeat (apply elem_of_cons in Hk; destruct Hk as [->|Hk]); try discriminate; inversion Hk.
+Qed.
+Example C24_ex_parents_differ : ex_parent ex_data <> ex_parent (<[kC := [7; 7]]> ex_data).
+Proof. intros H. apply (f_equal (fun p => p_data p !! kC)) in H. vm_compute in H. discriminate H. Qed.
+
+(* C24_error_not_absence: a fault on the declared key kB (which is ABSENT in the parent) rejects the
+   block with the execute-txs class, while without the fault the same block, with kB absent, succeeds *)
+Example C24_ex_fault_declared :
+  kB ∈ fst (block_reads ex_rules ex_meta (ex_parent ex_data) (ex_block (Some kB))) /\
+  execute_block ex_rules ex_meta (ex_parent ex_data) (ex_block (Some kB)) = inr (clsExecuteTxs, 0) /\
+  ex_data !! kB = None.
+Proof.
+  split; [|vm_compute; auto]. apply elem_of_list_In. vm_compute. auto 10.
+Qed.
+Example C24_ex_fault_meta :
+  execute_block ex_rules ex_meta (ex_parent ex_data) (ex_block (Some [0;1;1])) = inr (clsFetchTs, 0).
+Proof. vm_compute. reflexivity. Qed.
+
+(* C24_fault_elsewhere_harmless: a fault on the undeclared key kC *)
+Example C24_ex_fault_undeclared :
+  kC ∉ fst (block_reads ex_rules ex_meta (ex_parent ex_data) (ex_block (Some kC))) /\
+  execute_block ex_rules ex_meta (ex_parent ex_data) (ex_block (Some kC))
+  = execute_block ex_rules ex_meta (ex_parent ex_data) (ex_block None).
+Proof.
+  split; [|vm_compute; reflexivity].
+  intros H. apply elem_of_list_In in H. vm_compute in H. intuition discriminate.
+Qed.
